@@ -97,6 +97,15 @@ def _allowed_use(node: ast.AST, par: Optional[ast.AST], parents: dict[int, ast.A
         if tgt and body_ok:
             return 'iterated for yielding (formatter view, not stored)'
         return ''
+    # yield from zip(<sep>, repeat(flag)) / yield from ((s, flag) for s in <sep>): the same formatter view, spelled with an iterator
+    if isinstance(par, ast.Call) and norm(par.func) in ('zip', 'itertools.zip_longest') and node in par.args:
+        gp = parents.get(id(par))
+        if isinstance(gp, ast.YieldFrom):
+            return 'iterated for yielding (formatter view, not stored)'
+    if isinstance(par, ast.comprehension) and par.iter is node:
+        ge = parents.get(id(par))
+        if isinstance(ge, ast.GeneratorExp) and isinstance(parents.get(id(ge)), ast.YieldFrom):
+            return 'iterated for yielding (formatter view, not stored)'
     # None tests
     if isinstance(par, ast.Compare) and all(isinstance(c, ast.Constant) and c.value is None for c in par.comparators) \
             and par.left is node:
